@@ -140,9 +140,8 @@ RECURSIVE Flat(_)
 Flat(ss) == IF ss = <<>> THEN <<>> ELSE Head(ss) \o Flat(Tail(ss))
 NoteAuthors(notes) == Flat([i \in DOMAIN notes |-> notes[i].by])
 
-\* the adapter conversions that assemble_aoef(o) performs, in code order (duplicates kept)
-Children(o, sw) ==
-  LET d == Desc(o, sw) IN
+\* the adapter conversions that assemble_aoef performs for an object with description d, in code order (duplicates kept)
+ChildrenOf(d) ==
   CASE d.kind \in {"user", "tag"} -> <<>>
     [] d.kind = "recording"   -> d.tags \o NoteAuthors(d.notes) \o d.owners
     [] d.kind = "clip"        -> <<d.recording>>
@@ -157,6 +156,7 @@ Children(o, sw) ==
     [] d.kind = "match"       -> d.source \o d.target
     [] d.kind = "clip_eval"   -> <<d.annotations, d.predictions>> \o d.matches
     [] d.kind = "task"        -> Flat([i \in DOMAIN d.badges |-> d.badges[i].owner]) \o <<d.clip>>
+Children(o, sw) == ChildrenOf(Desc(o, sw))
 
 RootIds(ct, sw) ==
   LET r == Roots(ct, sw) IN
